@@ -79,7 +79,8 @@ Next == /\ l <= Len(Trace)
                     IN  /\ Report(e, clauses)
                         /\ IF sf # {} THEN Note(e, <<"static", sf>>) ELSE TRUE
                         /\ IF lf # {} THEN Note(e, <<"lit_conv", lf>>) ELSE TRUE
-                        /\ IF xf # {} THEN Note(e, <<"samples", xf>>) ELSE TRUE
+                        /\ IF xf # {} THEN Note(e, <<"samples", {y \in xf : y[1] # "ieee_evaluated"},
+                                                      Cardinality({y \in xf : y[1] = "ieee_evaluated"})>>) ELSE TRUE
         /\ l' = l + 1
 Spec == Init /\ [][Next]_l
 =============================================================================
